@@ -617,12 +617,16 @@ func judgeObservation(w *world, p proxyT, v *verdict, o *proxyObs) (fs []finding
 			okMarkers := map[int]bool{}
 			if len(used) > 0 {
 				for _, s := range used {
-					okMarkers[w.drFor(p.NS, s)] = true
+					for _, m := range w.drFor(p.NS, s) {
+						okMarkers[m] = true
+					}
 				}
 			} else {
 				for _, s := range insts {
 					if allowed[s.ID] {
-						okMarkers[w.drFor(p.NS, s)] = true
+						for _, m := range w.drFor(p.NS, s) {
+							okMarkers[m] = true
+						}
 					}
 				}
 			}
